@@ -653,3 +653,131 @@ func c18IndexTests(p *Prog, r *Report) {
 		return true
 	})
 }
+
+// C18.R7 — the override is matched against the name of the parameter file, which is built from the crop code
+// that CropTypeToString hands back.  The lookup must be a function of its arguments and the code tables alone
+// (no remembered answer), and with withSpaces == false it must hand back the table key itself.
+func c18CropCode(p *Prog, r *Report) {
+	r.Rule("C18.R7", "the crop code that names the parameter file (and is compared with the override's file name) is looked up statelessly: the lookup stores nothing outside its own locals, every hit returns the table key through the padding helper, and the padding helper returns its argument unchanged unless padding was asked for", 3)
+	fi := p.Funcs["hermes.GlobalVarsMain.CropTypeToString"]
+	if fi == nil {
+		r.Ob("lookup", "-", false, "CropTypeToString not found")
+		return
+	}
+	info := fi.Pkg.TypesInfo
+	body := fi.Decl.Body
+	local := func(o types.Object) bool {
+		return o != nil && o.Pos() >= body.Pos() && o.Pos() <= body.End()
+	}
+	stateless := true
+	where := fi.Decl.Pos()
+	ast.Inspect(body, func(n ast.Node) bool {
+		var lhs []ast.Expr
+		switch s := n.(type) {
+		case *ast.AssignStmt:
+			lhs = s.Lhs
+		case *ast.IncDecStmt:
+			lhs = []ast.Expr{s.X}
+		}
+		for _, l := range lhs {
+			e := stripParens(l)
+			for {
+				switch t := e.(type) {
+				case *ast.IndexExpr:
+					e = stripParens(t.X)
+					continue
+				case *ast.SelectorExpr:
+					e = stripParens(t.X)
+					continue
+				case *ast.StarExpr:
+					e = stripParens(t.X)
+					continue
+				}
+				break
+			}
+			id, ok := e.(*ast.Ident)
+			if !ok || id.Name == "_" {
+				continue
+			}
+			o := useObj(info, id)
+			if !local(o) {
+				stateless = false
+				where = l.Pos()
+			} else if _, isPtr := o.Type().Underlying().(*types.Pointer); isPtr && e != stripParens(l) {
+				stateless = false
+				where = l.Pos()
+			}
+		}
+		return true
+	})
+	r.Ob("code:stateless", p.Pos(where), stateless, fmt.Sprintf("the lookup assigns only its own locals: %v (an answer remembered in the run state is handed back later in whatever form it was stored)", stateless))
+	// the padding helper
+	var pad types.Object
+	var padLit *ast.FuncLit
+	ast.Inspect(body, func(n ast.Node) bool {
+		if as, ok := n.(*ast.AssignStmt); ok && len(as.Lhs) == 1 && len(as.Rhs) == 1 {
+			if fl, ok := as.Rhs[0].(*ast.FuncLit); ok && padLit == nil {
+				pad, padLit = useObj(info, as.Lhs[0]), fl
+			}
+		}
+		return true
+	})
+	// hits: return inside a range over a map, under value == c
+	nHit, okHit := 0, true
+	ast.Inspect(body, func(n ast.Node) bool {
+		rg, ok := n.(*ast.RangeStmt)
+		if !ok || rg.Key == nil {
+			return true
+		}
+		key := useObj(info, rg.Key)
+		ast.Inspect(rg.Body, func(m ast.Node) bool {
+			rs, ok := m.(*ast.ReturnStmt)
+			if !ok || len(rs.Results) != 1 {
+				return true
+			}
+			nHit++
+			good := false
+			switch t := stripParens(rs.Results[0]).(type) {
+			case *ast.Ident:
+				good = useObj(info, t) == key
+			case *ast.CallExpr:
+				good = pad != nil && useObj(info, t.Fun) == pad && len(t.Args) == 1 && useObj(info, t.Args[0]) == key
+			}
+			if !good {
+				okHit = false
+			}
+			return true
+		})
+		return true
+	})
+	r.Ob("code:hit-returns-key", p.Pos(fi.Decl.Pos()), nHit >= 2 && okHit, fmt.Sprintf("%d hit returns, each hands back the key of the table entry (through the padding helper): %v", nHit, okHit))
+	okPad := false
+	det := "no padding helper"
+	if padLit != nil && len(padLit.Type.Params.List) == 1 && len(padLit.Type.Params.List[0].Names) == 1 {
+		arg := info.Defs[padLit.Type.Params.List[0].Names[0]]
+		// last statement: return arg; every other return lies under the withSpaces flag
+		det = "the helper's fall-through does not return its argument"
+		if l := len(padLit.Body.List); l > 0 {
+			if rs, ok := padLit.Body.List[l-1].(*ast.ReturnStmt); ok && len(rs.Results) == 1 && useObj(info, rs.Results[0]) == arg {
+				okPad = true
+				det = "fall-through returns the argument"
+				var flag types.Object
+				if pl := fi.Decl.Type.Params.List; len(pl) >= 2 && len(pl[1].Names) == 1 {
+					flag = info.Defs[pl[1].Names[0]]
+				}
+				for _, st := range padLit.Body.List[:l-1] {
+					ifs, isIf := st.(*ast.IfStmt)
+					if !isIf || useObj(info, ifs.Cond) != flag || flag == nil || ifs.Else != nil {
+						okPad = false
+						det = "a statement before the fall-through is not guarded by the padding flag alone"
+					}
+				}
+				if len(defsOf(info, padLit.Body, arg)) != 0 {
+					okPad = false
+					det = "the helper reassigns its argument"
+				}
+			}
+		}
+	}
+	r.Ob("code:unpadded-unchanged", p.Pos(fi.Decl.Pos()), okPad, "without padding the helper returns the key unchanged: "+det)
+}
